@@ -318,6 +318,8 @@ class FoldedData:
             self.header.fch1,
             in_samples=True,
         )
+        # compute_dmdelays squeezes a single sub-band to a 0-d array
+        drifts = np.atleast_1d(drifts)
         bin_drifts = drifts - self._fph_shifts
         self._fph_shifts = drifts
         return bin_drifts
